@@ -131,7 +131,7 @@ def _mk(base, sub):
     if sub == "O":
         def ovr(self, *a, **k):
             return "ovr"
-        for m in ("append pop insert extend reverse sort get setdefault keys values items add discard remove "
+        for m in ("append pop insert extend reverse sort get setdefault update keys values items add discard remove "
                   "clear copy startswith endswith find rfind count replace split splitlines join encode decode "
                   "lower upper isalpha isdigit").split():
             if hasattr(base, m):
@@ -454,11 +454,13 @@ def func_source(shape, vtag, decl, lits, args, pure):
 # identified from the error text, reported, and the module rebuilt without it
 
 
-def build_functions(core, funcs, nmod, jobs, tag, rounds=4):
+def build_functions(core, funcs, nmod, jobs, tag, rounds=4, quarantine=()):
     """funcs: {fname: pyx source}.  Returns (modules, rejected): modules = list of (BuildResult, [fnames]);
     rejected = {fname: {"stage": 'cython'|'cc', "error": text}}."""
-    names = sorted(funcs)
+    names = sorted(n for n in funcs if n not in quarantine)
     groups = [names[i::nmod] for i in range(nmod)]
+    q = sorted(n for n in funcs if n in quarantine)
+    groups += [q[i::2] for i in range(2)]
     groups = [g for g in groups if g]
     rejected = {}
     done = [None] * len(groups)
@@ -490,7 +492,7 @@ def build_functions(core, funcs, nmod, jobs, tag, rounds=4):
                             bad.add(n)
                             rejected.setdefault(n, {"stage": "cython", "error": m.group(2)[:300]})
             elif b.stage == "cc":
-                for m in re.finditer(r"In function ‘__pyx_p[fw]_\d+%s_\d+(f_\w+)’:\n(.*)" % re.escape(b.name), b.errors or ""):
+                for m in re.finditer(r"In function ‘__pyx_p[fw]_\d+%s_\d*(f_\w+)’:\n(.*)" % re.escape(b.name), b.errors or ""):
                     if "error" in m.group(2) and m.group(1) in funcs:
                         bad.add(m.group(1))
                         rejected.setdefault(m.group(1), {"stage": "cc", "error": m.group(2)[-300:]})
